@@ -16,4 +16,5 @@ for p in "$@"; do
   [ $code -ne 0 ] && rc=1
 done
 git -C /repo worktree remove --force "$wt"
+/verif/tools/regen_tables.sh > /dev/null 2>&1   # the generated Lean tables describe /repo again
 exit $rc
